@@ -58,6 +58,7 @@ type Report struct {
 	Runs       int           `json:"runs"`
 	Nontrivial int           `json:"distinct_nontrivial"`
 	MismatchN  int           `json:"mismatch_count"`
+	Stuck      int           `json:"stuck"`
 	Mismatches []Mismatch    `json:"mismatches"`
 	Samples    []interface{} `json:"samples"`
 }
@@ -187,7 +188,19 @@ func runWriterVec(rep *Report, v *Vec, callers int, rng *rand.Rand) {
 			}
 		}(i)
 	}
-	wg.Wait()
+	// every Process call returns (with a result or an error): a call still out after 20 s is a verdict, not a hang of the harness
+	allBack := make(chan struct{})
+	go func() { wg.Wait(); close(allBack) }()
+	select {
+	case <-allBack:
+	case <-time.After(20 * time.Second):
+		if restore != nil {
+			restore()
+		}
+		rep.mm(Mismatch{What: fmt.Sprintf("%d concurrent Process calls on one sink: every call returns", callers), Vector: v.V, Expected: "all calls back", Observed: "some call still blocked after 20 s"})
+		rep.Stuck++
+		return
+	}
 	if restore != nil {
 		restore()
 	}
@@ -573,6 +586,9 @@ func Run(file string, seed int64, concretisations int) (*Report, error) {
 				continue
 			}
 			v.V.Wb = "ok" // no bytes for the configured format: the write never happens
+		}
+		if rep.Stuck >= 3 {
+			continue // calls that never return pile up: enough has been seen
 		}
 		for c := 0; c < concretisations; c++ {
 			for _, callers := range []int{1, 4, 16} {
